@@ -146,7 +146,7 @@ def cmdIds (msg : List Byte) : List (Option Id) :=
     not contiguous in memory and longer than the 128-byte scratch buffer may be refused
     ("large unaligned text command") -/
 def cmdIdsFrag (frags : List (List Byte)) : List (Option Id) :=
-  cmdIds frags.flatten ++ (if frags.length > 1 ∧ frags.flatten.length > 130 then [none] else [])
+  cmdIds frags.flatten ++ (if frags.flatten.length > 130 then [none] else [])
 
 /- ---------- abstract state ---------- -/
 structure Spec where
